@@ -87,6 +87,13 @@ pub fn fmt_stub(_args: core::fmt::Arguments<'_>) -> alloc::string::String {
     alloc::string::String::new()
 }
 
+/// Stub for harnesses whose inputs exclude the Byron header nibble (0b1000): reaching the Byron parser is
+/// then a harness error and is reported as a failed assertion, never silently assumed away.
+#[cfg(kani)]
+pub fn byron_from_bytes_unreachable(_b: Vec<u8>) -> Result<csl::ByronAddress, csl::JsError> {
+    panic!("Byron parser reached although the harness excludes Byron headers")
+}
+
 /// Vacuity witness: under Kani a `cover!`, natively a no-op.
 #[macro_export]
 macro_rules! vcover {
@@ -118,6 +125,14 @@ macro_rules! harnesses {
         pub fn $name() { let mut s = KaniSrc; $f(&mut s); }
     };
     (@one $name:ident native $unwind:literal $f:path) => {};
+    (@one $name:ident stubbyron $unwind:literal $f:path) => {
+        #[cfg(kani)]
+        #[kani::proof]
+        #[kani::unwind($unwind)]
+        #[kani::stub(alloc::fmt::format, crate::fmt_stub)]
+        #[kani::stub(cardano_serialization_lib::ByronAddress::from_bytes, crate::byron_from_bytes_unreachable)]
+        pub fn $name() { let mut s = KaniSrc; $f(&mut s); }
+    };
     (@one $name:ident nostub $unwind:literal $f:path) => {
         #[cfg(kani)]
         #[kani::proof]
@@ -138,16 +153,17 @@ harnesses! {
     e2n_min_fee_for_size [native 0] => e2n::min_fee_for_size;
     e2n_ex_units_cost [native 0] => e2n::ex_units_cost;
     e2n_ref_script_fee [native 0] => e2n::ref_script_fee;
+    e2n_c20_tables [native 0] => e2n::c20_tables;
     c11_enc_base [stub 4] => c11::enc_base;
     c11_enc_enterprise [stub 4] => c11::enc_enterprise;
     c11_enc_reward [stub 4] => c11::enc_reward;
-    c11_rt_base [stub 4] => c11::rt_base;
-    c11_rt_enterprise [stub 4] => c11::rt_enterprise;
-    c11_rt_reward [stub 4] => c11::rt_reward;
-    c11_pointer_roundtrip [stub 12] => c11::pointer_roundtrip;
-    c11_strict_parse_short [stub 8] => c11::strict_parse_short;
-    c11_strict_parse_base [stub 4] => c11::strict_parse_base;
-    c11_embedded_verbatim_short [stub 36] => c11::embedded_verbatim_short;
+    c11_rt_base [stubbyron 4] => c11::rt_base;
+    c11_rt_enterprise [stubbyron 4] => c11::rt_enterprise;
+    c11_rt_reward [stubbyron 4] => c11::rt_reward;
+    c11_pointer_roundtrip [stubbyron 12] => c11::pointer_roundtrip;
+    c11_strict_parse_short [stubbyron 8] => c11::strict_parse_short;
+    c11_strict_parse_base [stubbyron 4] => c11::strict_parse_base;
+    c11_embedded_verbatim_short [stubbyron 36] => c11::embedded_verbatim_short;
     c14_bignum_arith [stub 3] => c14::bignum_arith;
     c14_bignum_encode [stub 12] => c14::bignum_encode;
     c14_bignum_decode [stub 12] => c14::bignum_decode;
